@@ -22,8 +22,23 @@ type pathEnd struct {
 
 // targetPanic is a panic of the interpreted program.
 type targetPanic struct {
-	v  Value  // panic value (Iface) for explicit panics
-	rt string // runtime error text
+	v     Value  // panic value (Iface) for explicit panics
+	rt    string // runtime error text
+	where string // position and call chain where it was raised
+}
+
+func (m *Machine) whereAmI() string {
+	if m.lastInstr == nil || m.lastFrame == nil {
+		return ""
+	}
+	var sb strings.Builder
+	sb.WriteString(m.pos(m.lastInstr.Pos()))
+	n := 0
+	for fr := m.lastFrame; fr != nil && fr.fn != nil && n < 6; fr = fr.caller {
+		sb.WriteString(" < " + fr.fn.Name())
+		n++
+	}
+	return sb.String()
 }
 
 type deferred struct {
@@ -147,6 +162,7 @@ const (
 
 func (m *Machine) visitInstr(fr *frame, instr ssa.Instruction) continuation {
 	m.step(fr)
+	m.lastInstr, m.lastFrame = instr, fr
 	switch instr := instr.(type) {
 	case *ssa.DebugRef:
 
@@ -689,6 +705,10 @@ func (m *Machine) runFrame(fr *frame) {
 		default:
 			// engine bug or unmodelled situation: end the path, never count as success
 			panic(pathEnd{kind: "engine", msg: fmt.Sprintf("%v in %s\n%s", r, fr.fn, trimStack(debug.Stack()))})
+		}
+		if tp, ok := r.(targetPanic); ok && tp.where == "" {
+			tp.where = m.whereAmI()
+			r = tp
 		}
 		fr.panicking = true
 		fr.panic = r
